@@ -532,6 +532,15 @@ def r6_submit_cannot_die_early(chk: Check):
     c16.r3_linking(chk)
 
 
+def r8_nothing_leaks_on_abort(chk: Check):
+    """A lock kept by an aborted start, or a holding of a dead job that is never reclaimed, leaves the waiting jobs of that token
+    WAITING for ever: no final state, experiment.wait hangs (= C09.R1 pairing, C09.R3 watcher)"""
+    from . import c09
+
+    c09.r1_pairing(chk)
+    c09.r3_foreign_holdings_watched(chk)
+
+
 RULES = [
     ("R1", "final states are absorbing: may-set typestate of Job.state over aio_submit (await-atomic, effects of other writers at awaits) and over the any-time writer dependencychanged; only known writers store the state; exits of aio_submit are final", r1_absorbing),
     ("R2", "truthful mapping: DONE exactly when exit code == 0 (or, code unknown, success marker present); aio_start never returns None", r2_truthful),
@@ -539,5 +548,6 @@ RULES = [
     ("R4", "waiters: Job.wait returns the aio_submit future whose result is job.state after the start loop; experiment.wait leaves only on exit mode or zero counters and waits on the notified condition", r4_waiters),
     ("R6", "aio_submit does not die before its bookkeeping: the index link of a re-submitted job is replaced (is_symlink -> unlink -> symlink_to), not created blindly (= C16.R3)", r6_submit_cannot_die_early),
     ("R7", "a token release re-checks every dependent unconditionally (= C09.R2): a notification is never dropped because of the target job's momentary state", r7_release_wakes),
+    ("R8", "an aborted start gives back every lock it took and holdings of dead jobs are reclaimed on every path (= C09.R1, C09.R3): otherwise waiting jobs never become final", r8_nothing_leaks_on_abort),
     ("R5", "no lost wake-up: after an aborted start readiness is re-derived from job.unsatisfied before the next wait; dependencies are registered before their first check", r5_no_lost_wakeup),
 ]
